@@ -1052,12 +1052,114 @@ func c11SuccessAtoms(fn *ssa.Function) []RetAtom {
 		if _, z := a.Val.(zeroMarker); !z {
 			if _, k := a.Val.(*ssa.Const); !k {
 				_, nonNil, _ := NilTests(fn, Aliases(a.Val))
-				if len(nonNil) > 0 && AtomMustPass(a, newCut().Edges(nonNil...)) {
-					continue // returned on the non-nil side of its own test
+				if len(nonNil) > 0 {
+					ct := newCut().Edges(nonNil...)
+					ct.Edges(c11InfeasibleInto(fn, a.Ret, ct)...)
+					if AtomMustPass(a, ct) {
+						continue // returned on the non-nil side of its own test
+					}
 				}
 			}
 		}
 		out = append(out, a)
+	}
+	return out
+}
+
+// c11ConjunctOf: cond is the value of `a && b` evaluated as an expression (go/ssa
+// emits a phi "&&" of the constant false and b when the expression is not itself
+// a branch condition, e.g. in a tagless switch case): returns b.
+func c11ConjunctOf(cond ssa.Value) (ssa.Value, bool) {
+	phi, ok := cond.(*ssa.Phi)
+	if !ok || len(phi.Edges) < 2 {
+		return nil, false
+	}
+	var rest ssa.Value
+	for _, e := range phi.Edges {
+		if k, isConst := e.(*ssa.Const); isConst && k.Value != nil && k.Value.Kind() == constant.Bool && !constant.BoolVal(k.Value) {
+			continue
+		}
+		if rest != nil {
+			return nil, false
+		}
+		rest = e
+	}
+	if rest == nil {
+		return nil, false
+	}
+	for {
+		u, isNot := rest.(*ssa.UnOp)
+		if !isNot || u.Op != token.NOT {
+			break
+		}
+		return nil, false // polarity would flip; not needed by the callers
+	}
+	return rest, true
+}
+
+func c11OtherSucc(e Edge) *ssa.BasicBlock {
+	for _, s := range e.From.Succs {
+		if s != e.To {
+			return s
+		}
+	}
+	return e.To
+}
+
+// c11InfeasibleInto: CFG edges that only infeasible paths to `target` use.  For
+// `if a && b` computed as a value (phi of false from block A and b from block
+// B, tested in block D) the path A→D→true-edge cannot happen; when `target` is
+// not reachable from the false edge of D (avoiding cut), every path to it
+// through A→D is infeasible and the edge A→D may be cut.  Dually for `||`.
+func c11InfeasibleInto(fn *ssa.Function, target ssa.Instruction, ct *cut) []Edge {
+	type cand struct {
+		e     Edge
+		taken Edge
+	}
+	var cs []cand
+	for _, i := range Ifs(fn) {
+		phi, ok := i.Cond.(*ssa.Phi)
+		if !ok || phi.Block() != i.Block() {
+			continue
+		}
+		D := i.Block()
+		for pi, e := range phi.Edges {
+			k, isConst := e.(*ssa.Const)
+			if !isConst || k.Value == nil || k.Value.Kind() != constant.Bool {
+				continue
+			}
+			taken := Edge{D, D.Succs[1]}
+			if constant.BoolVal(k.Value) {
+				taken = Edge{D, D.Succs[0]}
+			}
+			cs = append(cs, cand{Edge{D.Preds[pi], D}, taken})
+		}
+	}
+	// greatest fixpoint: an edge stays when, with all remaining candidates cut as well, the target cannot be reached from
+	// the branch that is actually taken after it (induction on the last traversal of a candidate edge on a feasible path)
+	for changed := true; changed; {
+		changed = false
+		for k := 0; k < len(cs); k++ {
+			c2 := newCut()
+			for in := range ct.instrs {
+				c2.instrs[in] = true
+			}
+			for e := range ct.edges {
+				c2.edges[e] = true
+			}
+			for _, o := range cs {
+				c2.edges[o.e] = true
+			}
+			if reach(cs[k].taken.To, 0, target, c2) {
+				cs = append(cs[:k], cs[k+1:]...)
+				k--
+				changed = true
+			}
+		}
+	}
+	var out []Edge
+	for _, c := range cs {
+		out = append(out, c.e)
 	}
 	return out
 }
@@ -1965,6 +2067,12 @@ func c11SymlinkEdges(p *Prog, fn *ssa.Function, info map[ssa.Value]bool) (sym, n
 	})
 	for _, i := range Ifs(fn) {
 		cond, t, f := ifEdges(i)
+		if conj, ok := c11ConjunctOf(cond); ok {
+			// `case err == nil && info.Mode()&os.ModeSymlink != 0:` evaluated as a value (phi of false and the test):
+			// the true edge means the test held; the false edge tells nothing more than "the test was evaluated or moot"
+			cond = conj
+			f = Edge{}
+		}
 		switch x := cond.(type) {
 		case *ssa.BinOp:
 			if x.Op != token.EQL && x.Op != token.NEQ {
@@ -1982,10 +2090,21 @@ func c11SymlinkEdges(p *Prog, fn *ssa.Function, info map[ssa.Value]bool) (sym, n
 				continue
 			}
 			isSymOnEq := k != 0 // (m & bit) == bit  → symlink ; (m & bit) == 0 → not symlink
+			var se, ne Edge
 			if (x.Op == token.EQL) == isSymOnEq {
-				sym, notSym = append(sym, t), append(notSym, f)
+				se, ne = t, f
 			} else {
-				sym, notSym = append(sym, f), append(notSym, t)
+				se, ne = f, t
+			}
+			if se.From != nil {
+				sym = append(sym, se)
+			}
+			if ne.From != nil {
+				notSym = append(notSym, ne)
+			}
+			if f.From == nil && se == t {
+				// conjunction: on the other edge of the If either an earlier conjunct failed or this is not a symlink
+				notSym = append(notSym, Edge{t.From, c11OtherSucc(t)})
 			}
 		case *ssa.Call:
 			n := CalleeName(x)
